@@ -9,6 +9,7 @@ package main
 
 import (
 	"bufio"
+	"bytes"
 	"encoding/hex"
 	"flag"
 	"fmt"
@@ -23,7 +24,10 @@ import (
 
 	"github.com/tendermint/tendermint/abci/example/kvstore"
 	cfg "github.com/tendermint/tendermint/config"
+	"github.com/tendermint/tendermint/consensus"
+	cstypes "github.com/tendermint/tendermint/consensus/types"
 	"github.com/tendermint/tendermint/crypto"
+	"github.com/tendermint/tendermint/libs/bits"
 	"github.com/tendermint/tendermint/libs/log"
 	"github.com/tendermint/tendermint/node"
 	"github.com/tendermint/tendermint/p2p"
@@ -280,6 +284,7 @@ func runNodeCase(height int64, kills, truncs []string) string {
 	}
 	walHead := filepath.Join(root, "data", "cs.wal", "wal")
 	walLost := false
+	replayMismatch := ""
 	// first incarnation, not killed: creates the databases and commits height 1 (a kill inside
 	// goleveldb's very first initialisation leaves a directory it refuses to open — not our subject)
 	if _, code := runNodeChild(root, 1, 30*time.Second, "", label+" @first"); code != 0 {
@@ -287,7 +292,7 @@ func runNodeCase(height int64, kills, truncs []string) string {
 	}
 	for i, k := range kills {
 		p := strings.Split(k, ":")
-		killed, _ := runNodeChild(root, height, 20*time.Second, fmt.Sprintf("%s:signal=KILL:when=%s", p[0], p[1]), label+" @"+k)
+		killed, _ := runNodeChild(root, height, 10*time.Second, fmt.Sprintf("%s:signal=KILL:when=%s", p[0], p[1]), label+" @"+k)
 		if killed {
 			nodeKilled.Add(1)
 			v, _ := nodeKillHist.LoadOrStore(p[0], new(atomic.Int64))
@@ -305,10 +310,15 @@ func runNodeCase(height int64, kills, truncs []string) string {
 					os.Truncate(walHead, sz)
 				}
 			}
+			// restart that only replays: round state after catchupReplay vs the consensus model run
+			// over the surviving WAL records (then this incarnation ends too)
+			if m := compareReplay(root); m != "" && replayMismatch == "" {
+				replayMismatch = m
+			}
 		}
 	}
 	// final clean incarnation: the node must be able to go on
-	_, code := runNodeChild(root, height, 30*time.Second, "", label+" @final")
+	_, code := runNodeChild(root, height, 12*time.Second, "", label+" @final")
 	switch code {
 	case 0:
 		nodeReached.Add(1)
@@ -380,7 +390,307 @@ func runNodeCase(height int64, kills, truncs []string) string {
 		nodeConflictMemo.Store(label, res)
 		return res
 	}
+	if replayMismatch != "" {
+		nodeConflictMemo.Store(label, replayMismatch)
+		return replayMismatch
+	}
 	return "node-ok"
 }
 
 var nodeConflictMemo sync.Map
+
+// ---- round state after catchupReplay vs the consensus model's run over the surviving records ----
+
+var rStepNames = map[cstypes.RoundStepType]string{
+	cstypes.RoundStepNewHeight: "newHeight", cstypes.RoundStepNewRound: "newRound", cstypes.RoundStepPropose: "propose",
+	cstypes.RoundStepPrevote: "prevote", cstypes.RoundStepPrevoteWait: "prevoteWait", cstypes.RoundStepPrecommit: "precommit",
+	cstypes.RoundStepPrecommitWait: "precommitWait", cstypes.RoundStepCommit: "commit",
+}
+
+type blockNames struct{ ids []types.BlockID }
+
+func (b *blockNames) name(id types.BlockID) string {
+	if id.IsZero() {
+		return "nil"
+	}
+	for i, x := range b.ids {
+		if x.Equals(id) {
+			return strconv.Itoa(i)
+		}
+	}
+	b.ids = append(b.ids, id)
+	return strconv.Itoa(len(b.ids) - 1)
+}
+
+func (b *blockNames) byHash(h []byte) string {
+	for i, x := range b.ids {
+		if bytes.Equal(x.Hash, h) {
+			return strconv.Itoa(i)
+		}
+	}
+	return "?"
+}
+
+const nodePower = 10
+
+func rShowVS(b *blockNames, vs *types.VoteSet) string {
+	sum := func(ba *bits.BitArray) int64 {
+		if ba == nil {
+			return 0
+		}
+		var t int64
+		for i := 0; i < ba.Size(); i++ {
+			if ba.GetIndex(i) {
+				t += nodePower
+			}
+		}
+		return t
+	}
+	maj := "-"
+	if id, ok := vs.TwoThirdsMajority(); ok {
+		maj = b.name(id)
+	}
+	var buckets []string
+	if x := sum(vs.BitArrayByBlockID(types.BlockID{})); x != 0 {
+		buckets = append(buckets, fmt.Sprintf("nil=%d", x))
+	}
+	for i, id := range b.ids {
+		if x := sum(vs.BitArrayByBlockID(id)); x != 0 {
+			buckets = append(buckets, fmt.Sprintf("%d=%d", i, x))
+		}
+	}
+	bs := "-"
+	if len(buckets) > 0 {
+		bs = strings.Join(buckets, "+")
+	}
+	return fmt.Sprintf("%d/%s/%s", sum(vs.BitArray()), maj, bs)
+}
+
+func rStateLine(b *blockNames, rs *cstypes.RoundState) string {
+	ob := func(bl *types.Block) string {
+		if bl == nil {
+			return "-"
+		}
+		return b.byHash(bl.Hash())
+	}
+	prop := "-"
+	if rs.Proposal != nil {
+		prop = fmt.Sprintf("%s/%d", b.name(rs.Proposal.BlockID), rs.Proposal.POLRound)
+	}
+	pp := "-/0"
+	if rs.ProposalBlockParts != nil {
+		name := "?"
+		h := rs.ProposalBlockParts.Header()
+		for i, id := range b.ids {
+			if id.PartSetHeader.Equals(h) {
+				name = strconv.Itoa(i)
+			}
+		}
+		d := 0
+		if rs.ProposalBlockParts.IsComplete() {
+			d = 1
+		}
+		pp = fmt.Sprintf("%s/%d", name, d)
+	}
+	tp := 0
+	if rs.TriggeredTimeoutPrecommit {
+		tp = 1
+	}
+	var hv []string
+	for r := int32(-1); r <= 40; r++ {
+		if p := rs.Votes.Prevotes(r); p != nil {
+			hv = append(hv, fmt.Sprintf("%d:P%s:C%s", r, rShowVS(b, p), rShowVS(b, rs.Votes.Precommits(r))))
+		}
+	}
+	return fmt.Sprintf("r=%d s=%s lr=%d lb=%s vr=%d vb=%s prop=%s pb=%s pp=%s cr=%d tp=%d pr=0 hr=%d hv=%s",
+		rs.Round, rStepNames[rs.Step], rs.LockedRound, ob(rs.LockedBlock), rs.ValidRound, ob(rs.ValidBlock), prop,
+		ob(rs.ProposalBlock), pp, rs.CommitRound, tp, rs.Votes.Round(), strings.Join(hv, ","))
+}
+
+// nodeReplayMain: one incarnation that only replays the WAL (the code's catchupReplay, receive
+// routine not started) and prints the records as model ops and the round state reached.
+func nodeReplayMain(root string) {
+	c := nodeConfig(root)
+	j, err := os.OpenFile(filepath.Join(root, "journal.txt"), os.O_WRONLY|os.O_CREATE|os.O_APPEND, 0o600)
+	if err != nil {
+		os.Exit(4)
+	}
+	rec := &recordingPV{pv: privval.LoadFilePV(c.PrivValidatorKeyFile(), c.PrivValidatorStateFile()), j: j}
+	nk, err := p2p.LoadOrGenNodeKey(c.NodeKeyFile())
+	if err != nil {
+		os.Exit(4)
+	}
+	n, err := node.NewNode(c, rec, nk, proxy.NewLocalClientCreator(kvstore.NewApplication()),
+		node.DefaultGenesisDocProviderFunc(c), node.DefaultDBProvider, node.DefaultMetricsProvider(c.Instrumentation),
+		nodeLogger())
+	if err != nil {
+		fmt.Println("E newnode")
+		os.Exit(5)
+	}
+	cs := n.ConsensusState()
+	h, recs, found, err := consensus.VerifReplayOnly(cs)
+	if err != nil && consensus.IsDataCorruptionError(err) && os.Getenv("TMH_C04_REPAIRED") == "" {
+		// what State.OnStart does next: back the file up, repair it with the code's repairWalFile, retry
+		// once (here: in a fresh process, asked for by exit code 7)
+		wf := c.Consensus.WalFile()
+		bak := wf + ".CORRUPTED"
+		if b, e := os.ReadFile(wf); e == nil && os.WriteFile(bak, b, 0o600) == nil {
+			if e := consensus.VerifRepairWalFile(bak, wf); e == nil {
+				os.Exit(7)
+			}
+		}
+		fmt.Println("E repair-failed")
+		os.Exit(0)
+	}
+	if err != nil {
+		w := "replay-error"
+		if consensus.IsDataCorruptionError(err) {
+			w = "replay-error-corrupt-after-repair"
+		}
+		fmt.Println("E " + w)
+		os.Exit(0)
+	}
+	if !found {
+		fmt.Println("E no-endheight-marker")
+		os.Exit(0)
+	}
+	names := &blockNames{}
+	roundBid := map[int32]types.BlockID{}
+	var ops []string
+	unsupported := ""
+	for _, r := range recs {
+		if r.Kind == "corrupt" {
+			unsupported = "corrupt-record"
+			break
+		}
+		if r.Kind == "end" || r.Kind == "step" || r.Kind == "other" {
+			continue
+		}
+		if r.Height != h {
+			continue // handleTimeout / handleMsg ignore other heights
+		}
+		if r.Peer != "" {
+			unsupported = "peer-message"
+			break
+		}
+		switch r.Kind {
+		case "timeout":
+			ops = append(ops, fmt.Sprintf("rtimeout r=%d s=%s", r.Round, rStepNames[cstypes.RoundStepType(r.Step)]))
+		case "proposal":
+			roundBid[r.Round] = r.BlockID
+			ops = append(ops, fmt.Sprintf("rprop r=%d b=%s pol=%d", r.Round, names.name(r.BlockID), r.POLRound))
+		case "part":
+			id, ok := roundBid[r.Round]
+			if !ok || r.PartsTotal != 1 {
+				unsupported = "part-without-proposal-or-multipart"
+				break
+			}
+			ops = append(ops, "rpart b="+names.name(id))
+		case "vote":
+			t := "pv"
+			if r.VoteType == int32(tmproto.PrecommitType) {
+				t = "pc"
+			}
+			ops = append(ops, fmt.Sprintf("rvote t=%s r=%d b=%s", t, r.Round, names.name(r.BlockID)))
+		}
+		if unsupported != "" {
+			break
+		}
+	}
+	if unsupported != "" {
+		fmt.Println("E unsupported:" + unsupported)
+		os.Exit(0)
+	}
+	rs := cs.GetRoundState()
+	state := ""
+	if rs.Height > h {
+		// the replayed records finished the height
+		bid, round := "?", int32(-1)
+		if sc := n.BlockStore().LoadSeenCommit(h); sc != nil {
+			bid, round = names.name(sc.BlockID), sc.Round
+		}
+		state = fmt.Sprintf("decided %s@%d", bid, round)
+	} else {
+		state = rStateLine(names, rs)
+	}
+	fmt.Printf("H %d ids=%d\n", h, len(names.ids))
+	for _, o := range ops {
+		fmt.Println("R " + o)
+	}
+	fmt.Println("S " + state)
+	os.Exit(0)
+}
+
+var nodeReplayCompared, nodeReplayMismatch, nodeReplayRecords, nodeReplayRepaired atomic.Int64
+var nodeReplaySkipped sync.Map
+
+// compareReplay runs the replay-only incarnation and the model driver over the same records.
+func compareReplay(root string) string {
+	cmd := exec.Command(selfExe)
+	cmd.Env = append(os.Environ(), "TMH_C04_NODE_REPLAY="+root)
+	outb, err := cmd.Output()
+	if ee, ok := err.(*exec.ExitError); ok && ee.ExitCode() == 7 {
+		nodeReplayRepaired.Add(1)
+		cmd = exec.Command(selfExe)
+		cmd.Env = append(os.Environ(), "TMH_C04_NODE_REPLAY="+root, "TMH_C04_REPAIRED=1")
+		outb, err = cmd.Output()
+	}
+	skip := func(why string) string {
+		v, _ := nodeReplaySkipped.LoadOrStore(why, new(atomic.Int64))
+		v.(*atomic.Int64).Add(1)
+		return ""
+	}
+	if err != nil {
+		return skip("replay-child-failed")
+	}
+	var ops []string
+	ids, state := "1", ""
+	for _, l := range strings.Split(string(outb), "\n") {
+		switch {
+		case strings.HasPrefix(l, "E "):
+			w := strings.TrimPrefix(l, "E ")
+			if len(w) > 70 {
+				w = w[:70]
+			}
+			return skip(w)
+		case strings.HasPrefix(l, "H "):
+			if i := strings.Index(l, "ids="); i > 0 {
+				ids = l[i+4:]
+			}
+		case strings.HasPrefix(l, "R "):
+			ops = append(ops, strings.TrimPrefix(l, "R "))
+		case strings.HasPrefix(l, "S "):
+			state = strings.TrimPrefix(l, "S ")
+		}
+	}
+	if state == "" {
+		return skip("no-state-line")
+	}
+	driver := "/verif/lean/.lake/build/bin/tmdriver-c04"
+	if f := flag.Lookup("driver"); f != nil && f.Value.String() != "" {
+		driver = f.Value.String()
+	}
+	in := "#case replay\nrcfg power=" + strconv.Itoa(nodePower) + " own=0 ids=" + ids + "\n" + strings.Join(ops, "\n")
+	if len(ops) > 0 {
+		in += "\n"
+	}
+	in += "rstate\n"
+	d := exec.Command(driver)
+	d.Stdin = strings.NewReader(in)
+	mo, err := d.Output()
+	if err != nil {
+		return skip("driver-failed")
+	}
+	lines := strings.Split(strings.TrimSpace(string(mo)), "\n")
+	model := lines[len(lines)-1]
+	nodeReplayCompared.Add(1)
+	nodeReplayRecords.Add(int64(len(ops)))
+	if model != state {
+		nodeReplayMismatch.Add(1)
+		if os.Getenv("TMH_C04_KEEP") != "" { // diagnostics: keep a copy of the directory as replayed
+			exec.Command("cp", "-r", root, fmt.Sprintf("/tmp/c04-mismatch-%d", time.Now().UnixNano())).Run()
+		}
+		return "node-replay-mismatch:records=[" + strings.Join(ops, ";") + "]_impl=[" + state + "]_model=[" + model + "]"
+	}
+	return ""
+}
